@@ -365,6 +365,20 @@ def run_conv(ctx, spec):
 
 
 def run(ctx, spec):
+  from paranoid_crypto.lib import ec_util
+  from vp import contracts
+  pm = contracts.PurityMonitor(ctx, keep=80)
+  pm.wrap(ec_util.EcCurve, 'TransformOrderLen')
+  pm.wrap(ec_util.EcCurve, 'HiddenNumberParams')
+  pm.wrap(ec_util, 'ECDSAValues', norm=lambda v: tuple(int(x) for x in v))
+  try:
+    _run(ctx, spec)
+    pm.recheck()
+  finally:
+    pm.restore()
+
+
+def _run(ctx, spec):
   s = spec['shard']
   if s.startswith('model'):
     run_model(ctx, spec)
